@@ -98,4 +98,23 @@ PROPS["C10"] = dict(
     fuzz=[("FuzzC10", 90)],
 )
 
+PROPS["C01"] = dict(
+    pkg="c01",
+    level="exploration",
+    technique="property-based testing (rapid): differential against a literal from-the-spec PE hash + metamorphic byte flips per region (exhaustive per image in the thorough tier)",
+    level_text=("Constructed well-formed PE32/PE32+ images (0..8 sections in permuted header order, zero-size sections with wild pointers, gaps, header padding, "
+                "trailing data, any length mod 8, any e_lfanew, 5..18 data directories, optional existing certificate table) are hashed by the library and by a "
+                "literal transcription of the Microsoft algorithm (no debug/pe, no shared code). Per image 8..24 byte changes at region boundaries and uniform positions: "
+                "a covered byte must change the digest, checksum / directory address / table bytes must not, and a mutated image that is still well-formed is compared again. "
+                "Thorough: every position of images <= 2 KiB."),
+    level_note=("Trusts ref/pehash; validated per run against the digest sbsign embedded in two signed fixtures and four digests pinned in the repository tests, and on gap-free images "
+                "against the statement itself (covered == all bytes minus checksum, directory entry, table). Images the library's header reader (debug/pe) refuses after a byte change are not judged."),
+    rule=("case = generated image + byte changes; each hashed image counts as one evaluation. Non-trivial = image with >=2 non-empty sections whose header order differs from file order, "
+          "or PE32, or trailing data, or length mod 8 != 0, or an existing table; distinct by SHA-256 of the image."),
+    assumptions=["ref/pehash reference implementation", "well-formed = ref/pehash.WellFormed (sections inside the content, after the headers, non-overlapping; table 8-aligned at end of file)"],
+    exhaustive_note="thorough tier: every byte position of 1/32 of the images (those <= 2 KiB), class img/every_position_flipped",
+    quick=dict(checks=6000, shards=4, timeout=900),
+    thorough=dict(checks=40000, shards=16, timeout=3000),
+)
+
 NOT_APPLICABLE = _NA()
